@@ -5,8 +5,10 @@ package main
 
 import (
 	"fmt"
+	"go/token"
 	"go/types"
 	"os"
+	"sort"
 	"strings"
 
 	"golang.org/x/tools/go/ssa"
@@ -174,9 +176,163 @@ func checkC18(w *World, r *Report) {
 	l1(w, r)
 	l2(w, r)
 	l3(w, r)
+	l5(w, r)
+	r.Floor("L-5", 1, "sentinel errors compared by identity")
 	r.Floor("L-1", 3, "exploration + positive controls")
 	r.Floor("L-2", 3, "tree ownership")
 	r.Floor("L-3", 3, "history")
+}
+
+// l5: "not found" is an answer of the store, and the controllers recognise it by
+// identity (`xerr == xerrors.ErrNotFoundResult`: a missing record is created, any
+// other error refuses the transaction). Every module function whose error result
+// reaches such a comparison must hand back the sentinel itself — a wrapped copy
+// (`ErrX.Wrapf(…)`) is a different object and is taken for a failure.
+func l5(w *World, r *Report) {
+	isSentinel := func(v ssa.Value) *ssa.Global {
+		ld, ok := stripConv(v).(*ssa.UnOp)
+		if !ok || ld.Op != token.MUL {
+			return nil
+		}
+		g, ok := ld.X.(*ssa.Global)
+		if !ok || !strings.HasPrefix(g.Name(), "Err") || !isErrorType(ld.Type()) {
+			return nil
+		}
+		return g
+	}
+	// producers: functions whose error result is compared with the sentinel
+	producers := map[*ssa.Global]map[*ssa.Function]bool{}
+	nComp := 0
+	for _, fn := range w.nodeFuncs() {
+		for _, b := range fn.Blocks {
+			for _, in := range b.Instrs {
+				bo, ok := in.(*ssa.BinOp)
+				if !ok || (bo.Op != token.EQL && bo.Op != token.NEQ) {
+					continue
+				}
+				for _, pr := range [][2]ssa.Value{{bo.X, bo.Y}, {bo.Y, bo.X}} {
+					g := isSentinel(pr[1])
+					if g == nil {
+						continue
+					}
+					nComp++
+					// the tested value: the error result of a call (through phis)
+					var visit func(v ssa.Value, d int)
+					seen := map[ssa.Value]bool{}
+					visit = func(v ssa.Value, d int) {
+						v = stripConv(v)
+						if seen[v] || d > 4 {
+							return
+						}
+						seen[v] = true
+						var call *ssa.Call
+						switch y := v.(type) {
+						case *ssa.Phi:
+							for _, e := range y.Edges {
+								visit(e, d+1)
+							}
+						case *ssa.Call:
+							call = y
+						case *ssa.Extract:
+							call, _ = y.Tuple.(*ssa.Call)
+						}
+						if call == nil {
+							return
+						}
+						for _, cal := range w.Callees(call) {
+							if tgt := boundTarget(cal); tgt != nil {
+								cal = tgt
+							}
+							if !w.InModule(cal) {
+								continue
+							}
+							if producers[g] == nil {
+								producers[g] = map[*ssa.Function]bool{}
+							}
+							producers[g][cal] = true
+						}
+					}
+					visit(pr[0], 0)
+				}
+			}
+		}
+	}
+	if nComp == 0 {
+		r.Undecided("L-5", "comparisons", "no identity comparison with a sentinel error found (the controllers' not-found tests are expected)")
+		return
+	}
+	var gs []*ssa.Global
+	for g := range producers {
+		gs = append(gs, g)
+	}
+	sort.Slice(gs, func(i, j int) bool { return gs[i].Name() < gs[j].Name() })
+	for _, g := range gs {
+		bad := ""
+		nFn := 0
+		seenFn := map[*ssa.Function]bool{}
+		var fns []*ssa.Function
+		for f := range producers[g] {
+			fns = append(fns, f)
+		}
+		sort.Slice(fns, func(i, j int) bool { return w.FName(fns[i]) < w.FName(fns[j]) })
+		for _, f := range fns {
+			for _, h := range w.withModuleCallees(f, 3) {
+				if o := h.Origin(); o != nil {
+					h = o
+				}
+				if seenFn[h] {
+					continue
+				}
+				seenFn[h] = true
+				nFn++
+				for _, c := range CallsIn(h) {
+					call, isCall := c.(*ssa.Call)
+					if !isCall || !isErrorType(call.Type()) {
+						continue
+					}
+					if call.Common().IsInvoke() {
+						if isSentinel(call.Common().Value) != g {
+							continue
+						}
+					} else if cal := call.Common().StaticCallee(); cal == nil || cal.Signature.Recv() == nil || len(call.Common().Args) == 0 || isSentinel(call.Common().Args[0]) != g {
+						continue
+					}
+					// derived from the sentinel: returned (directly or through a phi)?
+					if refs := call.Referrers(); refs != nil {
+						for _, ref := range *refs {
+							switch ref.(type) {
+							case *ssa.Return, *ssa.Phi, *ssa.Store, *ssa.MakeInterface:
+								bad = w.FName(h) + " hands back " + w.canonCall(call.Common(), 0) + " (" + site(w, c) + ")"
+							}
+						}
+					}
+				}
+			}
+		}
+		key := "sentinel-identity:" + g.Name()
+		if bad != "" {
+			r.Violate("L-5", key, "callers recognise this answer by identity ("+g.Name()+" == the result), but "+bad+": a wrapped copy is another object, so the answer is taken for a failure", nil)
+		} else {
+			r.OK("L-5", key, fmt.Sprintf("the %d module functions whose error result is compared with %s by identity hand back the sentinel itself, never a wrapped copy", nFn, g.Name()))
+		}
+	}
+}
+
+// boundTarget: the method a bound-method wrapper (`x.m` used as a value) calls.
+func boundTarget(f *ssa.Function) *ssa.Function {
+	if f == nil || !strings.HasSuffix(f.Name(), "$bound") {
+		return nil
+	}
+	for _, b := range f.Blocks {
+		for _, in := range b.Instrs {
+			if c, ok := in.(ssa.CallInstruction); ok {
+				if m := c.Common().StaticCallee(); m != nil {
+					return m
+				}
+			}
+		}
+	}
+	return nil
 }
 
 func structOf(n *types.Named) *types.Struct {
@@ -483,6 +639,26 @@ func l2(w *World, r *Report) {
 				}
 				writers[w.FName(fn)] = append(writers[w.FName(fn)], obj.Name()+"@"+site(w, c))
 				all = append(all, site(w, c))
+				// L-4: the tree keeps the key bytes it is handed (iavl indexes pending
+				// removals and fast nodes by the caller's memory): a key buffer must not
+				// be shared between the iterations of the loop the call sits in
+				if obj.Name() == "Set" || obj.Name() == "Remove" {
+					_, args := callRecvArgs(c.Common())
+					if len(args) >= 1 {
+						okBuf, why := true, "not inside a loop"
+						if hdr := loopHeaderOf(c.Block()); hdr != nil {
+							why = "the key's backing array is allocated inside the loop, once per iteration"
+							if sl, isSl := stripConv(args[0]).(*ssa.Slice); isSl {
+								if al, isA := sl.X.(*ssa.Alloc); isA {
+									if !loopBlocks(hdr)[al.Block()] {
+										okBuf, why = false, "the key is a slice of a buffer allocated outside the loop ("+site(w, al)+"): every iteration overwrites the bytes the tree kept for the previous key"
+									}
+								}
+							}
+						}
+						r.Check(okBuf, "L-4", "tree-key-buffer:"+w.FName(fn)+":"+obj.Name(), "the key bytes handed to the tree are not reused: "+why, why, site(w, c))
+					}
+				}
 			}
 		}
 	}
